@@ -220,6 +220,17 @@ def r6_symbol_namespace(run, F):
     AN = "alpha::scoper::variable_references::Analyzer::"
     df = F.body(AN + "declare_function")
     cross = any(x.get("k") == "Field" and x.get("name") in ("containers", "variable_stack") for x in walk(df["hir"]))
+    # the libc intrinsics behind print!/format!/abort! are declared lazily under their C names; a source function of that name
+    # already owns the symbol, LLVMAddFunction then hands out `write.1`, which nothing defines
+    for getter in ("get_write_intrinsic", "get_snprintf_intrinsic", "get_trap_like_intrinsic"):
+        gb = [b for p, b in F.lib.bodies.items() if p.startswith("alpha::generator::Generator::" + getter)]
+        adds = [c for b in gb if "hir" in b for c in hirq.calls(b["hir"]) if (hirq.callee(c) or "").endswith("LLVMAddFunction")]
+        looks = [c for b in gb if "hir" in b for c in hirq.calls(b["hir"]) if (hirq.callee(c) or "").endswith(("LLVMGetNamedFunction", "LLVMGetNamedGlobal"))]
+        if not gb:
+            continue
+        run.ob("R6-SYMBOL-NAMESPACE", "intrinsic vs function|%s" % getter, bool(adds) and bool(looks), F.where(gb[0]),
+               "%s adds a function under a fixed C name without looking for an existing symbol of that name (LLVMGetNamedFunction): a source "
+               "function called `write`/`snprintf`/`abort` makes the intrinsic `name.1`" % getter)
     run.ob("R6-SYMBOL-NAMESPACE", "constant vs function", disjoint or frees or cross, F.where(d, f),
            "a constant (private global `@name`) and a function of the same name: the function must keep its symbol name "
            "(global names decorated: %s, name freed before LLVMAddFunction: %s, rejected by the scoper: %s)" % (disjoint, frees, cross))
